@@ -1,3 +1,8 @@
+#[cfg(lbfs_torrent_bootstrap_verif)]
+use std::{path::PathBuf, sync::Arc, time::Instant};
+#[cfg(lbfs_torrent_bootstrap_verif)]
+use crate::verif_shim::fs::{self};
+#[cfg(not(lbfs_torrent_bootstrap_verif))]
 use std::{
     fs::{self},
     path::PathBuf,
@@ -114,6 +119,9 @@ fn setup_metadata(torrents: &[Torrent], export_directory: &PathBuf, scan_directo
     }
 
     populate_metadata_searches(&mut metadata, &file_cache);
+
+    #[cfg(lbfs_torrent_bootstrap_verif)]
+    crate::verif_shim::trace::searches(&metadata);
 
     Ok(metadata)
 }
